@@ -45,6 +45,10 @@ type cfg struct {
 	// objects each processor is attached to (default: all)
 	ProcDomains []int   `json:"proc_domains,omitempty"`
 	SOAttach    [][]int `json:"so_attach,omitempty"`
+	// ProcNM: inputs/outputs of every domain (default: N, M for all); Unbonded: every third port is
+	// left without a bond and without an external port of its own
+	ProcNM   [][2]int `json:"proc_n_m,omitempty"`
+	Unbonded bool     `json:"unbonded,omitempty"`
 }
 
 func (c cfg) opsOf(p int) []string {
@@ -108,7 +112,11 @@ func build(c cfg) (*bondmachine.Bondmachine, error) {
 		}
 	}
 	for p := 0; p < nDom; p++ {
-		m, err := gen.NewMachine(c.Rsize, c.R, c.N, c.M, c.L, c.O, c.Mode, c.opsOf(p))
+		pn, pm := c.N, c.M
+		if p < len(c.ProcNM) {
+			pn, pm = uint8(c.ProcNM[p][0]), uint8(c.ProcNM[p][1])
+		}
+		m, err := gen.NewMachine(c.Rsize, c.R, pn, pm, c.L, c.O, c.Mode, c.opsOf(p))
 		if err != nil {
 			return nil, err
 		}
@@ -125,12 +133,29 @@ func build(c cfg) (*bondmachine.Bondmachine, error) {
 	}
 	var bonds [][2]string
 	ins, outs := 0, 0
+	port := 0
 	for p := 0; p < c.Procs; p++ {
-		for i := 0; i < int(c.N); i++ {
+		pn, pm := int(c.N), int(c.M)
+		d := p
+		if p < len(c.ProcDomains) {
+			d = c.ProcDomains[p]
+		}
+		if d < len(c.ProcNM) {
+			pn, pm = c.ProcNM[d][0], c.ProcNM[d][1]
+		}
+		for i := 0; i < pn; i++ {
+			port++
+			if c.Unbonded && port%3 == 0 {
+				continue
+			}
 			bonds = append(bonds, [2]string{fmt.Sprintf("p%di%d", p, i), fmt.Sprintf("i%d", ins)})
 			ins++
 		}
-		for i := 0; i < int(c.M); i++ {
+		for i := 0; i < pm; i++ {
+			port++
+			if c.Unbonded && port%3 == 0 {
+				continue
+			}
 			bonds = append(bonds, [2]string{fmt.Sprintf("o%d", outs), fmt.Sprintf("p%do%d", p, i)})
 			outs++
 		}
@@ -373,6 +398,22 @@ func configs(tier string, seed int64) []cfg {
 		c2.Ops = c2.ProcOps[0]
 		c2.SOAttach = [][]int{{0}, {0, 1}}
 		cs = append(cs, c2)
+	}
+	// unusual port counts: processors without inputs or without outputs next to ordinary ones, many
+	// external ports (two-digit names), ports left unbonded, 64 bit data
+	for vi, nm := range [][][2]int{{{0, 2}, {2, 0}}, {{0, 1}, {1, 1}, {3, 0}}, {{6, 6}, {6, 6}}, {{0, 12}}, {{11, 0}}, {{1, 1}, {0, 0}}, {{3, 3}, {2, 2}, {1, 3}}} {
+		for _, unb := range []bool{false, true} {
+			for _, rs := range []uint8{8, 64} {
+				c := base(fmt.Sprintf("ports%d-unbonded-%v", vi, unb), rs, []string{"rset", "j", "nop", "add"})
+				c.Procs, c.ProcNM, c.Unbonded = len(nm), nm, unb
+				cs = append(cs, c)
+			}
+		}
+	}
+	for _, np := range []int{10, 12} {
+		c := base(fmt.Sprintf("procs%d", np), 8, []string{"rset", "j", "i2rw", "r2owa"})
+		c.Procs, c.N, c.M = np, 1, 1
+		cs = append(cs, c)
 	}
 	// two kinds at once
 	cs = append(cs, func() cfg {
